@@ -608,6 +608,7 @@ class Mat:
         self.init = init                    # callable(seg, col) -> initial element (default: uninterpreted old value)
         self.written = []                   # log of (segname, col)
         self.scatter = []                   # [(space, idx_z, col, value_e)] writes through index arrays
+        self.seg_masks = {}                 # segname -> mask over the segment's table space: the block holds the rows of the mask
         self.oid = fresh_id()
 
     def __repr__(self):
@@ -667,7 +668,7 @@ class Mat:
         if isinstance(col, (int,)) and not isinstance(col, bool):
             seg = self._seg_of(rows)
             if seg is not None:
-                return Arr(self.segments[seg], self.get(seg, col), True)
+                return Arr(self.segments[seg], self.get(seg, col), self.seg_masks.get(seg, True))
             if isinstance(rows, Arr) and not _is_boolish(rows.e):
                 if len(self.segments) != 1:
                     raise EngineError("gather from a multi-segment matrix")
@@ -725,14 +726,32 @@ class Mat:
                 return
         if not isinstance(col, int):
             raise EngineError("ppc matrix store with non-constant column")
+        if isinstance(rows, SegRows):
+            sp = self.segments[rows.seg]
+            segmask = self.seg_masks.get(rows.seg, True)
+            if isinstance(val, Arr):
+                if val.space is not sp:
+                    raise EngineError("store through block positions: value of another row space")
+                # rows = positions of the block narrowed by rows.mask; the value is compressed accordingly
+                require_same_mask(it, val.mask, _mask_and(segmask, rows.mask), f"store into rows of block {rows.seg} of {self.name}")
+                v = val.e
+            elif is_scalar(val):
+                v = val
+            else:
+                raise EngineError("store through block positions")
+            m = rows.mask if rows.mask is not True else z3.BoolVal(True)
+            self.put(it, rows.seg, col, scalar_ite(SV(m), v, self.get(rows.seg, col)))
+            return
         seg = self._seg_of(rows)
         if seg is not None:
             sp = self.segments[seg]
             if isinstance(val, Arr):
                 if val.space is not sp:
                     raise EngineError(f"store into segment {seg} of {self.name} from an array of space {val.space.name}")
-                if val.mask is not True:
-                    raise EngineError("store of a compressed array into a full segment")
+                segmask = self.seg_masks.get(seg, True)
+                if val.mask is not True or segmask is not True:
+                    # the block holds exactly the rows selected by the segment's mask (e.g. the in-service elements)
+                    require_same_mask(it, val.mask, segmask, f"store into block {seg} of {self.name}")
                 self.put(it, seg, col, val.e)
             elif is_scalar(val):
                 self.put(it, seg, col, val)
@@ -791,6 +810,21 @@ class Mat:
 
     def sym_isinstance(self, it, cls):
         return getattr(cls, "__name__", str(cls)) in ("ndarray", "object")
+
+
+class SegRows:
+    """np.arange(f, t) for the boundaries f, t of a row block of a ppc matrix: the positions of that block (optionally narrowed
+    by a mask over the block's rows)"""
+
+    def __init__(self, seg, mask=True):
+        self.seg, self.mask = seg, mask
+
+    def sym_getitem(self, it, key):
+        if isinstance(key, Series):
+            key = key.arr()
+        if isinstance(key, Arr) and _is_boolish(key.e):
+            return SegRows(self.seg, _mask_and(_mask_and(self.mask, key.mask), truth_z(key.e)))
+        raise EngineError("index into a block position range")
 
 
 class MultiArr:
